@@ -295,3 +295,123 @@ func HarnessC04_PartRetention() {
 	vfAssert(total == wantTotal && removed == wantRemoved, "C04 partition RemoveTombstones counts are exact")
 	vfCover("c04-part-retention")
 }
+
+// ---- adoption: every replica that learns of a removal stops showing the entry ----
+
+func init() {
+	vfRegister("HarnessC04_RingAdoption", HarnessC04_RingAdoption)
+	vfRegister("HarnessC04_PartAdoption", HarnessC04_PartAdoption)
+}
+
+// HarnessC04_RingAdoption: a gossip message carrying tombstone x@T merged into
+// ANY state (x unknown, older, same second, newer) leaves x at least as new as
+// the tombstone: never a live entry that is not strictly newer than T. A replica
+// that did not hold the tombstone before stores it and forwards it.
+func HarnessC04_RingAdoption() {
+	n := vfParam("ids", 2)
+	pre := vfArbOperand("p", n)
+	in := vfArbOperand("i", n)
+	vfAssumeConsistent(n, pre, in)
+	now := vfTs("now")
+	tomb, ok := in.gen[vfIDs[0]]
+	if !ok {
+		return
+	}
+	vfAssume(tomb.st == LEFT)
+	old, had := pre.gen[vfIDs[0]]
+	st := vfCloneDesc(pre.d)
+	chM, err := st.mergeWithTime(vfCloneDesc(in.d), false, time.Unix(now, 0))
+	vfAssert(err == nil, "C04 merge does not fail")
+	got, present := st.Ingesters[vfIDs[0]]
+	vfAssert(present, "C04 a replica that learns of a removal keeps the tombstone (also for an entry it never saw)")
+	if !present {
+		return
+	}
+	vfAssert(vfOr(got.Timestamp > tomb.ts, vfAnd(got.Timestamp == tomb.ts, got.State == LEFT)), "C04 after learning of a removal the entry is a tombstone unless a strictly newer version is known")
+	adopted := !had
+	if had {
+		adopted = vfOr(old.ts < tomb.ts, vfAnd(old.ts == tomb.ts, old.st != LEFT))
+	}
+	if adopted {
+		vfAssert(vfAnd(got.State == LEFT, got.Timestamp == tomb.ts), "C04 a newer (or same-second) tombstone is adopted")
+		vfAssert(len(got.Tokens) == 0, "C04 tombstone keeps no tokens")
+		vfAssert(chM != nil, "C04 an adopted tombstone is forwarded to peers")
+		if chM != nil {
+			c, inCh := chM.(*Desc).Ingesters[vfIDs[0]]
+			vfAssert(inCh && c.State == LEFT && c.Timestamp == tomb.ts, "C04 an adopted tombstone is forwarded to peers")
+		}
+		// readers of this replica no longer see the entry
+		view := vfCloneDesc(st)
+		view.RemoveTombstones(time.Time{})
+		_, shown := view.Ingesters[vfIDs[0]]
+		vfAssert(!shown, "C04 readers never see a tombstone")
+		vfCover("c04-ring-adopted")
+	}
+}
+
+func HarnessC04_PartAdoption() {
+	np, no := 1, 1
+	pre := vfArbPOperand("p", np, no)
+	in := vfArbPOperand("i", np, no)
+	vfAssumePConsistent(np, no, pre, in)
+	now := vfTs("now")
+	st := vfClonePRD(pre.d)
+	if vfChoice("which", 2) == 0 {
+		tomb, ok := in.pg[0]
+		if !ok {
+			return
+		}
+		vfAssume(tomb.st == PartitionDeleted)
+		old, had := pre.pg[0]
+		chM, err := st.mergeWithTime(vfClonePRD(in.d), false, time.Unix(now, 0))
+		vfAssert(err == nil, "C04 partition merge does not fail")
+		got, present := st.Partitions[0]
+		vfAssert(present, "C04 a replica that learns of a partition removal keeps the tombstone")
+		if !present {
+			return
+		}
+		vfAssert(vfOr(got.StateTimestamp > tomb.ts, vfAnd(got.StateTimestamp == tomb.ts, got.State == PartitionDeleted)), "C04 after learning of a partition removal the partition is a tombstone unless a strictly newer version is known")
+		adopted := !had
+		if had {
+			adopted = vfOr(old.ts < tomb.ts, vfAnd(old.ts == tomb.ts, old.st != PartitionDeleted))
+		}
+		if adopted {
+			vfAssert(vfAnd(got.State == PartitionDeleted, got.StateTimestamp == tomb.ts), "C04 a newer (or same-second) partition tombstone is adopted")
+			vfAssert(chM != nil, "C04 an adopted partition tombstone is forwarded to peers")
+			if chM != nil {
+				c, inCh := chM.(*PartitionRingDesc).Partitions[0]
+				vfAssert(inCh && c.State == PartitionDeleted && c.StateTimestamp == tomb.ts, "C04 an adopted partition tombstone is forwarded to peers")
+			}
+			vfCover("c04-part-adopted")
+		}
+	} else {
+		id := vfOwnerIDs[0]
+		tomb, ok := in.og[id]
+		if !ok {
+			return
+		}
+		vfAssume(tomb.st == OwnerDeleted)
+		old, had := pre.og[id]
+		chM, err := st.mergeWithTime(vfClonePRD(in.d), false, time.Unix(now, 0))
+		vfAssert(err == nil, "C04 partition merge does not fail")
+		got, present := st.Owners[id]
+		vfAssert(present, "C04 a replica that learns of an owner removal keeps the tombstone")
+		if !present {
+			return
+		}
+		vfAssert(vfOr(got.UpdatedTimestamp > tomb.ts, vfAnd(got.UpdatedTimestamp == tomb.ts, got.State == OwnerDeleted)), "C04 after learning of an owner removal the owner is a tombstone unless a strictly newer version is known")
+		adopted := !had
+		if had {
+			adopted = vfOr(old.ts < tomb.ts, vfAnd(old.ts == tomb.ts, old.st != OwnerDeleted))
+		}
+		if adopted {
+			vfAssert(vfAnd(got.State == OwnerDeleted, got.UpdatedTimestamp == tomb.ts), "C04 a newer (or same-second) owner tombstone is adopted")
+			vfAssert(chM != nil, "C04 an adopted owner tombstone is forwarded to peers")
+			if chM != nil {
+				c, inCh := chM.(*PartitionRingDesc).Owners[id]
+				vfAssert(inCh && c.State == OwnerDeleted && c.UpdatedTimestamp == tomb.ts, "C04 an adopted owner tombstone is forwarded to peers")
+			}
+			vfCover("c04-owner-adopted")
+		}
+	}
+}
